@@ -368,6 +368,8 @@ def check_E3(ctx, facts):
                 if want is None or fld not in piece_of:
                     continue
                 got = sorted(bnds.get('piece%d' % piece_of[fld], set()))
+                if got:
+                    got = [min(got)]          # (every bound is a necessary condition of acceptance: the tightest one decides)
                 okb = got == [want]
                 # a reader that parses the piece into an integer type whose largest value IS the bound needs no comparison
                 rty = by_piece.get(piece_of[fld], (None, None, None))[2]
